@@ -278,3 +278,16 @@ Proof. intros H R. apply skipcopy_rule_sound in R. destruct R as [R _]. congruen
 (* taking the address of a built value never hands out an address of the source (fix f2ba6e9) *)
 Lemma never_aliasing lv p : aliasing lv p = false.
 Proof. reflexivity. Qed.
+
+(* the identity plan of the Basic rule (the other plan that passes the source expression on) is chosen only for basic
+   types of one kind: values without any address *)
+Lemma basic_rule_sound e hm conf s t :
+  first_rule e hm conf s t = Some 7 ->
+  f_Basic e s = true /\ f_Basic e t = true /\ m_Kind e (f_BasicType e s) = m_Kind e (f_BasicType e t).
+Proof.
+  unfold first_rule. intros H. apply find_some in H. destruct H as [_ H].
+  change (x_matches 7 e hm conf s t) with (x_matches_7 e hm conf s t) in H.
+  unfold x_matches_7, eqv, eqv_N in H.
+  apply andb_prop in H. destruct H as [H12 H3]. apply andb_prop in H12. destruct H12 as [H1 H2].
+  repeat split; try assumption. apply N.eqb_eq. exact H3.
+Qed.
